@@ -202,6 +202,8 @@ type StaticCfg struct {
 	IDStyle                                                                                                  int  // 0 prefixed (s0, r1), 1 numeric (101, 102), 2 dictionary words incl. pairs that collide under common 32-bit hashes
 	AgencyIDCellBlank                                                                                        bool // with BlankAgencyID: the single agency's own agency_id cell is empty
 	DistinctText                                                                                             bool // free-text cells that usually repeat (stop_headsign) are all different
+	WideZones                                                                                                bool // agency time zones from the whole IANA list instead of four common ones
+	SpecExtras                                                                                               int  // members the GTFS reference defines and the library does not read (feed_info.txt, ...)
 }
 
 func DrawStaticCfg(t *sim.T, big bool) StaticCfg {
@@ -244,7 +246,14 @@ func DrawStaticCfg(t *sim.T, big bool) StaticCfg {
 	if c.Agencies == 1 {
 		c.BlankAgencyID = t.Chance(1, 2)
 	}
-	c.IDStyle = t.Weighted(6, 2, 1)
+	c.IDStyle = t.Weighted(12, 4, 2, 1)
+	if c.IDStyle == 3 {
+		c.IDStyle = 3 + t.Choose(len(idSeps)) // ids that contain a separator character, see sepID
+	}
+	c.WideZones = t.Chance(1, 4)
+	if t.Chance(1, 6) {
+		c.SpecExtras = t.Range(1, 3)
+	}
 	c.AgencyIDCellBlank = c.BlankAgencyID && t.Chance(1, 3)
 	if t.Chance(1, 12) {
 		c.StopTimesPerTrip = t.Range(30, 70) // long trips (dozens of stop times each)
@@ -267,8 +276,46 @@ func entityID(style int, prefix string, i int, base int) string {
 		}
 		return fmt.Sprintf("%s%d", collidingWords[i%len(collidingWords)], i)
 	}
+	if style >= 3 {
+		return sepID(idSeps[(style-3)%len(idSeps)], i)
+	}
 	return fmt.Sprintf("%s%d", prefix, i)
 }
+
+// idSeps: characters implementations like to join ids with when they build composite keys.
+var idSeps = []string{"|", ",", ":", "/", "-", "_", "\x00", "", "\t", ";"}
+
+// sepID spells ids that contain the separator. Every table uses the same fragments, so that two pairs of ids
+// from two tables can join to the same text in different ways ("a|b" + "|" + "c" == "a" + "|" + "b|c"): a
+// composite key built by joining is ambiguous for them, a composite key built as a struct is not.
+func sepID(sep string, i int) string {
+	var pats []string
+	seen := map[string]bool{}
+	for _, p := range []string{"a" + sep + "b", "c", "a", "b" + sep + "c", "a" + sep + "b" + sep + "c", "b", "a" + sep, sep + "c"} {
+		if !seen[p] && p != "" {
+			seen[p] = true
+			pats = append(pats, p)
+		}
+	}
+	s := pats[i%len(pats)]
+	if i >= len(pats) {
+		s += fmt.Sprint(i / len(pats))
+	}
+	return s
+}
+
+// wideZones: a sample of the IANA database (process-wide caches of loaded locations see many names).
+var wideZones = strings.Fields(`Africa/Abidjan Africa/Accra Africa/Algiers Africa/Cairo Africa/Casablanca Africa/Johannesburg Africa/Lagos Africa/Nairobi Africa/Tunis
+America/Anchorage America/Argentina/Buenos_Aires America/Bogota America/Caracas America/Chicago America/Denver America/Halifax America/Havana America/Lima
+America/Los_Angeles America/Mexico_City America/Montevideo America/Panama America/Phoenix America/Santiago America/Sao_Paulo America/St_Johns America/Toronto America/Vancouver
+America/Winnipeg America/Edmonton America/Regina America/Detroit America/Boise America/Juneau America/Guatemala America/Jamaica America/La_Paz America/Asuncion
+Asia/Almaty Asia/Baghdad Asia/Baku Asia/Bangkok Asia/Colombo Asia/Dhaka Asia/Dubai Asia/Ho_Chi_Minh Asia/Hong_Kong Asia/Jakarta Asia/Jerusalem Asia/Kabul Asia/Karachi
+Asia/Kathmandu Asia/Kolkata Asia/Kuala_Lumpur Asia/Manila Asia/Riyadh Asia/Seoul Asia/Shanghai Asia/Singapore Asia/Taipei Asia/Tashkent Asia/Tehran Asia/Tokyo Asia/Yangon
+Atlantic/Azores Atlantic/Reykjavik Australia/Adelaide Australia/Brisbane Australia/Darwin Australia/Lord_Howe Australia/Perth Australia/Sydney
+Europe/Amsterdam Europe/Athens Europe/Belgrade Europe/Berlin Europe/Brussels Europe/Bucharest Europe/Budapest Europe/Copenhagen Europe/Dublin Europe/Helsinki
+Europe/Istanbul Europe/Kyiv Europe/Lisbon Europe/London Europe/Madrid Europe/Moscow Europe/Oslo Europe/Paris Europe/Prague Europe/Rome Europe/Sofia Europe/Stockholm
+Europe/Vienna Europe/Warsaw Europe/Zurich Pacific/Auckland Pacific/Chatham Pacific/Fiji Pacific/Guam Pacific/Honolulu Pacific/Kiritimati Pacific/Tongatapu
+Etc/GMT+12 Etc/GMT-14 Etc/UTC UTC GMT EST MST HST CET EET`)
 
 var tzPool = []string{"America/New_York", "UTC", "Europe/Paris", "Asia/Tokyo"}
 
@@ -394,7 +441,7 @@ func GenStatic(t *sim.T, c StaticCfg) *StaticModel {
 				id = "" // a single agency may leave its id blank; routes then leave agency_id blank too
 				m.AgencyIDs[len(m.AgencyIDs)-1] = ""
 			}
-			rows = append(rows, []string{id, name(t, c, "Agency", i), fmt.Sprintf("http://a%d.example", i), tzPool[t.Choose(len(tzPool))], "en", "555-01" + fmt.Sprint(i), "http://fare.example", "a@example.com"})
+			rows = append(rows, []string{id, name(t, c, "Agency", i), fmt.Sprintf("http://a%d.example", i), agencyZone(t, c), "en", "555-01" + fmt.Sprint(i), "http://fare.example", "a@example.com"})
 		}
 		cols := []colSpec{{"agency_id", true}, {"agency_name", true}, {"agency_url", true}, {"agency_timezone", true}, {"agency_lang", false}, {"agency_phone", false}, {"agency_fare_url", false}, {"agency_email", false}}
 		f.Tables = append(f.Tables, finishTable(t, c, "agency.txt", cols, rows))
@@ -581,6 +628,30 @@ func GenStatic(t *sim.T, c StaticCfg) *StaticModel {
 		cols := []colSpec{{"trip_id", true}, {"arrival_time", true}, {"departure_time", true}, {"stop_id", true}, {"stop_sequence", true}, {"stop_headsign", false}, {"pickup_type", false}, {"drop_off_type", false}, {"continuous_pickup", false}, {"continuous_drop_off", false}, {"shape_dist_traveled", false}, {"timepoint", false}}
 		f.Tables = append(f.Tables, finishTable(t, c, "stop_times.txt", cols, rows))
 	}
+	// members the GTFS reference defines and the library has no use for: header only, well-formed rows, rows
+	// with required values missing
+	for k := 0; k < c.SpecExtras; k++ {
+		sp := specExtras[t.Choose(len(specExtras))]
+		if f.Table(sp.name) != nil {
+			continue
+		}
+		var cols []colSpec
+		for i, cn := range sp.cols {
+			cols = append(cols, colSpec{cn, i < sp.required})
+		}
+		var rows [][]string
+		for r := t.Weighted(3, 2, 2, 1); r > 0; r-- {
+			row := make([]string, len(cols))
+			for i := range row {
+				row[i] = fmt.Sprintf("v%d", t.Choose(4))
+				if t.Chance(1, 4) {
+					row[i] = ""
+				}
+			}
+			rows = append(rows, row)
+		}
+		f.Tables = append(f.Tables, finishTable(t, c, sp.name, cols, rows))
+	}
 	// member order
 	if t.Chance(1, 2) {
 		for i := len(f.Tables) - 1; i > 0; i-- {
@@ -653,4 +724,36 @@ func GiantDistinctCfg(t *sim.T) StaticCfg {
 	c.OptionalCols = 4
 	c.DistinctText = true
 	return c
+}
+
+func agencyZone(t *sim.T, c StaticCfg) string {
+	if c.WideZones {
+		return wideZones[t.Choose(len(wideZones))]
+	}
+	return tzPool[t.Choose(len(tzPool))]
+}
+
+// specExtras: files of the GTFS reference that ParseStatic does not read (the first `required` columns are the
+// required ones).
+var specExtras = []struct {
+	name     string
+	cols     []string
+	required int
+}{
+	{"feed_info.txt", []string{"feed_publisher_name", "feed_publisher_url", "feed_lang", "default_lang", "feed_start_date", "feed_end_date", "feed_version", "feed_contact_email", "feed_contact_url"}, 3},
+	{"fare_attributes.txt", []string{"fare_id", "price", "currency_type", "payment_method", "transfers", "agency_id", "transfer_duration"}, 5},
+	{"fare_rules.txt", []string{"fare_id", "route_id", "origin_id", "destination_id", "contains_id"}, 1},
+	{"levels.txt", []string{"level_id", "level_index", "level_name"}, 2},
+	{"pathways.txt", []string{"pathway_id", "from_stop_id", "to_stop_id", "pathway_mode", "is_bidirectional", "length", "traversal_time", "stair_count", "max_slope", "min_width", "signposted_as", "reversed_signposted_as"}, 5},
+	{"translations.txt", []string{"table_name", "field_name", "language", "translation", "record_id", "record_sub_id", "field_value"}, 4},
+	{"attributions.txt", []string{"organization_name", "attribution_id", "agency_id", "route_id", "trip_id", "is_producer", "is_operator", "is_authority", "attribution_url", "attribution_email", "attribution_phone"}, 1},
+	{"areas.txt", []string{"area_id", "area_name"}, 1},
+	{"stop_areas.txt", []string{"area_id", "stop_id"}, 2},
+	{"networks.txt", []string{"network_id", "network_name"}, 1},
+	{"route_networks.txt", []string{"network_id", "route_id"}, 2},
+	{"timeframes.txt", []string{"timeframe_group_id", "start_time", "end_time", "service_id"}, 2},
+	{"fare_media.txt", []string{"fare_media_id", "fare_media_type", "fare_media_name"}, 2},
+	{"fare_products.txt", []string{"fare_product_id", "amount", "currency", "fare_product_name", "fare_media_id"}, 3},
+	{"booking_rules.txt", []string{"booking_rule_id", "booking_type", "prior_notice_duration_min", "message", "phone_number", "info_url"}, 2},
+	{"location_groups.txt", []string{"location_group_id", "location_group_name"}, 1},
 }
